@@ -176,8 +176,23 @@ Theorem C13_checker_dag_hidden : forall dag heads merged,
   forall h a c, In h heads -> In a (op_ancestors dag [h]) ->
     visible (v_heads (view_at dag a)) c = true ->
     visible (v_heads (view_at dag h)) c = false ->
-    visible (v_heads merged) c = true -> divergent_in merged c = true.
+    visible (v_heads merged) c = true ->
+    kept_in_place dag heads merged c = true \/ under_conflicted_bookmark merged c = true.
 Proof. exact dag_removed_hidden_spec. Qed.
+
+(** ... where [kept_in_place] means: below a visible, removed, divergently rewritten commit. *)
+Theorem C13_kept_in_place_spec : forall dag heads merged c,
+  kept_in_place dag heads merged c = true <->
+  exists d, In d (ancs (v_heads merged)) /\ suffixb c d = true /\ divergent_in merged d = true
+            /\ exists h, In h heads /\ removed_on_line dag h d = true.
+Proof.
+  intros. unfold kept_in_place. rewrite existsb_exists. split.
+  - intros (d & Hd & H). apply andb_true_iff in H. destruct H as [H H3].
+    apply andb_true_iff in H. destruct H as [H1 H2]. apply existsb_exists in H3.
+    destruct H3 as (h & Hh & Hr). exists d. repeat split; auto. exists h. auto.
+  - intros (d & Hd & H1 & H2 & h & Hh & Hr). exists d. split; [assumption|].
+    rewrite H1, H2. cbn. apply existsb_exists. exists h. auto.
+Qed.
 
 (** [merge_operations] on two heads with one closest common ancestor is the three-way
     [merge_views] with that ancestor as base (further heads are merged relative to the closest
@@ -228,7 +243,7 @@ Example C13_nested_ancestor :
   cca dag [2%nat; 3%nat] [4%nat] = [1%nat]
   /\ cca dag [2%nat] [4%nat] = [0%nat]
   /\ merge_ops 6 dag [2%nat; 3%nat; 4%nat]
-     = MOk (mk_view [[(3, 3)]%N; x; y; [(6, 6); (1, 1)]%N] [(0%N, [Some y])] []).
+     = MOk (mk_view [[(3, 3)]%N; x; [(6, 6); (1, 1)]%N; y] [(0%N, [Some y])] []).
 Proof. vm_compute. repeat split. Qed.
 
 Print Assumptions C13_wc_rule.
